@@ -991,7 +991,9 @@ func checkOracle(rr *hx.Rand, c *cfgSpec, im *image, got []fa, class string) {
 		p := hx.Pick(rr, goodPaths)
 		d.ioKeys = append(d.ioKeys, id)
 		d.ioPaths[id] = []string{p}
-		scope = func(a fa) bool { return slices.Contains(e, a.typ) && a.anyPath(func(q string) bool { return under(q, p) }) }
+		scope = func(a fa) bool {
+			return slices.Contains(e, a.typ) && a.anyPath(func(q string) bool { return under(q, p) })
+		}
 	default:
 		if c.lint {
 			if c.aci {
